@@ -573,10 +573,19 @@ static void run_imp(const Case& c) {
         for (const auto& w : c.words) std::cout << ' ' << upper_power_of_two(std::stoull(w));
         std::cout << '\n';
     } else if (model == "factory") {
-        // extra = fmax R_bend frev gap use_csr s xi coll_radius
+        // extra = fmax R_bend frev gap use_csr s xi coll_radius [rows of an impedance file, 0 = none]
+        // (the file holds the rows "i  1+i/4  -i/2", exactly representable)
+        std::string zfile;
+        if (e.size() > 8 && e[8] > 0) {
+            std::string dir = std::getenv("XDG_DATA_HOME") ? std::getenv("XDG_DATA_HOME") : "/tmp";
+            zfile = dir + "/ivh_" + c.id + "_" + std::to_string(getpid()) + ".dat";
+            std::ofstream f(zfile);
+            for (size_t i = 0; i < static_cast<size_t>(e[8]); i++) f << i << ' ' << (1.0 + 0.25 * i) << ' ' << (-0.5 * i) << '\n';
+        }
         std::stringstream sink; auto* old = std::cout.rdbuf(sink.rdbuf());
-        auto z = makeImpedance(n, nullptr, e[0], e[1], e[2], e[3], e[4] != 0, e[5], e[6], e[7]);
+        auto z = makeImpedance(n, nullptr, e[0], e[1], e[2], e[3], e[4] != 0, e[5], e[6], e[7], zfile);
         std::cout.rdbuf(old);
+        if (!zfile.empty()) unlink(zfile.c_str());
         if (z == nullptr) std::cout << "txt none\n"; else print_imp(*z);
     }
 }
